@@ -467,7 +467,7 @@ var guards = []guard{
 	{name: "memOutboxLimitReached", file: "adapters/memrecordstore/memrecordstore.go", fn: "Store.ListOutboxEvents", kind: "if", mentions: []string{"limit"}, index: 0,
 		params: []param{I("len(filtered)", "n"), I("limit", "limit")}, result: "Bool", doc: "memrecordstore.ListOutboxEvents: limit reached after appending"},
 	{name: "memStreamFromLatest", file: "adapters/memstreamer/memstreamer.go", fn: "Stream.Recv", kind: "if", mentions: []string{"StreamFromLatest"}, index: 0,
-		params: []param{B("s.options.StreamFromLatest", "fromLatest"), I("cursorOffset", "cursor")}, result: "Bool", doc: "memstreamer.Recv: jump to the head"},
+		params: []param{B("s.options.StreamFromLatest", "fromLatest"), B("ok", "stored")}, result: "Bool", doc: "memstreamer.Recv: no cursor stored, start at the creation-time length"},
 	{name: "memStreamAtHead", file: "adapters/memstreamer/memstreamer.go", fn: "Stream.Recv", kind: "if", mentions: []string{"len(log)"}, index: 0,
 		params: []param{I("len(log)", "n"), I("cursorOffset", "cursor")}, result: "Bool", doc: "memstreamer.Recv: nothing to deliver yet"},
 }
